@@ -167,6 +167,8 @@ ERR_LEAVES = [
     lambda r: [S("error"), Q(S("my-cond")), STR("boom")],
     lambda r: [S("error"), Q(S("other-cond")), 1],
     lambda r: [S("boom")],
+    lambda r: [S("boom-macro"), 1],
+    lambda r: [S("boom-op"), S("n")],
     lambda r: S("unbound-symbol-x"),
     lambda r: [S("car"), 1, 2],
     lambda r: [S("car"), 5],
